@@ -5,7 +5,7 @@
 set -u
 SEEDS=("$@"); [ ${#SEEDS[@]} -eq 0 ] && SEEDS=($(ls /verif/seeded))
 WORK=/tmp/matrix.$$; rm -rf $WORK; mkdir -p $WORK
-rsync -a --exclude .git --exclude replays --exclude evidence /verif/ $WORK/verif/
+mkdir -p $WORK/verif && git -C /verif archive HEAD | tar -x -C $WORK/verif   # the COMMITTED machinery (edits in progress must not leak into a matrix)
 mkdir -p $WORK/verif/evidence $WORK/verif/replays
 PROPS=${MATRIX_PROPS:-$(python3 -c "import json;print(' '.join(c['property_id'] for c in json.load(open('/verif/MANIFEST.json'))['checks']))")}
 for S in "${SEEDS[@]}"; do
